@@ -37,7 +37,7 @@ PROBES = ["split_remainder_nonzero", "insufficient_funds_refused", "less_than_on
           "fee_standard", "validate_refused_lie", "validate_returned_fee", "validate_raised_under_fault", "cache_hit",
           "cache_roundtrip_bytes", "torn_cache_file_read", "provider_lookup_cached", "observed_stuck_after_heal",
           "observed_txdb_returned_unrequested_tx", "spendable_form_text", "spendable_form_dict", "display_roundtrip",
-          "attach_unspents"]
+          "attach_unspents", "fee_after_in_place_edit"]
 
 CACHE = "/wallet/cache"
 
@@ -68,6 +68,7 @@ def gen_plan(rng, tier, index, config=None):
     steps.append({"op": "db_new", "cache": r.chance(0.85), "providers": [0] if r.chance(0.6) else [0, 1]})
     while len(steps) < nsteps:
         op = r.weighted([("mint", 4 if ntx < 8 else 1), ("build", 6 if ntx else 0), ("validate", 6 if nbuilt else 0),
+                         ("edit", 3 if nbuilt else 0),
                          ("attach", 2 if nbuilt else 0), ("fetch", 3 if ntx else 0), ("put", 2 if ntx else 0), ("display", 2),
                          ("provider", 3 if faulty else 0), ("fs_fault", 4 if faulty else 0), ("crash", 1.5 if faulty else 0),
                          ("db_new", 0.5)])
@@ -133,6 +134,10 @@ def gen_plan(rng, tier, index, config=None):
             nbuilt += 1
         elif op == "validate":
             steps.append({"op": "validate", "tx": "x%d" % r.below(nbuilt)})
+        elif op == "edit":
+            steps.append({"op": "edit", "tx": "x%d" % r.below(nbuilt), "how": r.pick(["unspent_value_inplace", "unspent_replace", "out_value",
+                                                                                     "set_unspents_same_list"]),
+                          "i": r.bits(8), "delta": r.pick([1, -1, 7, 1000, -1000, 30000])})
         elif op == "attach":
             steps.append({"op": "attach", "tx": "x%d" % r.below(nbuilt)})
         elif op == "fetch":
@@ -584,6 +589,49 @@ def _op_validate(ctx, W, st):
         ctx.violate("C13", "validate-unspents-wrong-fee", {"got": fee, "expected": true_in - sum(outs)})
 
 
+def _op_edit(ctx, W, st):
+    """the wallet corrects a recorded amount / an output on the transaction it already built and whose fee it already
+    displayed: the reported fee must follow (it always equals inputs minus outputs)"""
+    ent = W.built.get(st["tx"])
+    if ent is None:
+        return
+    tx, rec, outs = ent
+    try:
+        tx.fee()   # the fee has been looked at before the edit
+        how = st["how"]
+        if how == "out_value":
+            if not tx.txs_out:
+                return
+            k = st["i"] % len(tx.txs_out)
+            tx.txs_out[k].coin_value = max(0, tx.txs_out[k].coin_value + st["delta"])
+            outs = [o.coin_value for o in tx.txs_out]
+        else:
+            k = st["i"] % len(rec)
+            v, s_, h, idx = rec[k]
+            nv = max(1, v + st["delta"])
+            if how == "unspent_value_inplace":
+                tx.unspents[k].coin_value = nv
+            elif how == "unspent_replace":
+                tx.unspents[k] = W.net.tx.Spendable(nv, s_, h, idx)
+            else:
+                lst = tx.unspents
+                lst[k] = W.net.tx.Spendable(nv, s_, h, idx)
+                tx.set_unspents(lst)
+            rec = list(rec)
+            rec[k] = (nv, s_, h, idx)
+        f, ti, to = tx.fee(), tx.total_in(), tx.total_out()
+    except Exception as e:
+        ctx.violate("C13", "fee-raised", {"exc": type(e).__name__, "msg": str(e)[:200], "after": "edit " + st["how"]})
+        return
+    W.built[st["tx"]] = (tx, rec, outs)
+    ctx.probe("fee_after_in_place_edit")
+    ctx.obs("edit", st["how"], f)
+    total_in = sum(v for v, _, _, _ in rec)
+    if (f, ti, to) != (total_in - sum(outs), total_in, sum(outs)):
+        ctx.violate("C13", "fee-identity", {"after": "edit " + st["how"], "fee": f, "total_in": ti, "total_out": to,
+                                            "inputs": total_in, "outputs": sum(outs)})
+
+
 def _op_attach(ctx, W, st):
     ent = W.built.get(st["tx"])
     if ent is None or W.db is None:
@@ -648,7 +696,7 @@ def _op_heal_probe(ctx, W, st):
 
 
 _OPS = {"db_new": _op_db_new, "mint": _op_mint, "provider": _op_provider, "put": _op_put, "fetch": _op_fetch,
-        "fs_fault": _op_fs_fault, "crash": _op_crash, "build": _op_build, "validate": _op_validate, "attach": _op_attach,
+        "fs_fault": _op_fs_fault, "crash": _op_crash, "build": _op_build, "validate": _op_validate, "edit": _op_edit, "attach": _op_attach,
         "display": _op_display, "heal_probe": _op_heal_probe}
 
 
